@@ -395,6 +395,20 @@ impl Scenario for C01 {
                 return Err(Violation::new(class, "short-write-sink", format!("through a sink accepting {accept} bytes per call the encoder delivered {} bytes, into a Vec {}; first difference at {at}", s.data.len(), out.len())));
             }
         }
+        // the same map into a fixed-size sink that is full after `cap` bytes (what `&mut [u8]` does: Ok(0) from then on):
+        // the encoder must come back — with an error — wherever the space runs out
+        if !out.is_empty() && out.len() <= 200_000 && plan.idx % 4 == 1 {
+            let mut map4 = Beatmap::decode(data).map_err(|e| Violation::new("C01/error-without-io-failure", "err", e.to_string()))?;
+            let cap = ((plan.idx / 4).wrapping_mul(2_654_435_761) % out.len() as u64) as usize;
+            let mut buf = vec![0u8; cap];
+            st.inc("probe.encode-into-full-fixed-size-sink");
+            if map4.encode(&mut buf[..]).is_ok() {
+                return Err(Violation::new("C01/encode-failed", "full-sink", format!("encode into a {cap}-byte slice returned Ok although the text has {} bytes", out.len())));
+            }
+            if buf[..] != out[..cap] {
+                return Err(Violation::new("C01/encode-nondeterministic", "full-sink", format!("the {cap} bytes that fitted into a fixed-size sink are not the first {cap} bytes of the text")));
+            }
+        }
         let mut map2 = Beatmap::decode(data).map_err(|e| Violation::new("C01/error-without-io-failure", "err", e.to_string()))?;
         match map2.encode_to_string() {
             Ok(s) => {
